@@ -30,11 +30,12 @@ VARIABLES l, done,
           wpend,     \* [c -> the write between its ws and we: [b, k, v, applied] or NoW]
           callow,    \* commits released so far (epochs < callow may commit / notify)
           cand, gal, \* P-layer candidates (see CacheObsTrace)
+          hk,        \* [c -> 0 no store read pending / 1 read done, `db` event due / 2 inside the hook]
           tagsSeen,
           runTags    \* one record [id, tags] per finished run
 
-tvars == <<vars, l, done, wpend, callow, cand, gal, tagsSeen, runTags>>
-tview == <<view, l, done, wpend, callow, cand, gal, tagsSeen, runTags>>
+tvars == <<vars, l, done, wpend, callow, cand, gal, hk, tagsSeen, runTags>>
+tview == <<view, l, done, wpend, callow, cand, gal, hk, tagsSeen, runTags>>
 
 NoW == [b |-> -1, k |-> 0, v |-> 0, applied |-> TRUE]
 AbsentV == -1
@@ -46,6 +47,7 @@ TInit ==
     /\ callow = 0
     /\ cand = [k \in Keys |-> {AbsentV}]
     /\ gal = [c \in Clients |-> {}]
+    /\ hk = [c \in Clients |-> 0]
     /\ tagsSeen = {}
     /\ runTags = <<>>
 
@@ -64,6 +66,7 @@ TRun ==
     /\ callow' = 0
     /\ cand' = [k \in Keys |-> {AbsentV}]
     /\ gal' = [c \in Clients |-> {}]
+    /\ hk' = [c \in Clients |-> 0]
     /\ tagsSeen' = {}
     /\ UNCHANGED runTags
     /\ Consume
@@ -71,13 +74,13 @@ TRun ==
 TReset ==
     /\ Is("reset")
     /\ runTags' = Append(runTags, [id |-> Ev.id, tags |-> tagsSeen])
-    /\ UNCHANGED <<vars, wpend, callow, cand, gal, tagsSeen>>
+    /\ UNCHANGED <<vars, wpend, callow, cand, gal, hk, tagsSeen>>
     /\ Consume
 
 TNew ==
     /\ Is("new") /\ Ev.b = NextEpoch
     /\ NewBatch(Ev.c)
-    /\ UNCHANGED <<wpend, callow, cand, gal, tagsSeen, runTags>>
+    /\ UNCHANGED <<wpend, callow, cand, gal, hk, tagsSeen, runTags>>
     /\ Consume
 
 TWriteStart ==
@@ -86,7 +89,7 @@ TWriteStart ==
     /\ cand' = [cand EXCEPT ![Ev.k] = @ \cup {IF Ev.op = "rem" THEN AbsentV ELSE Ev.v}]
     /\ gal' = [c \in Clients |-> IF pc[c].st # "idle" /\ pc[c].k = Ev.k
                                   THEN gal[c] \cup {IF Ev.op = "rem" THEN AbsentV ELSE Ev.v} ELSE gal[c]]
-    /\ UNCHANGED <<vars, callow, tagsSeen, runTags>>
+    /\ UNCHANGED <<vars, callow, hk, tagsSeen, runTags>>
     /\ Consume
 
 (* hidden: the cache / batch update of the pending write *)
@@ -94,7 +97,7 @@ TApply(c) ==
     /\ ~wpend[c].applied
     /\ DoWrite(c, wpend[c].b, wpend[c].k, wpend[c].v)
     /\ wpend' = [wpend EXCEPT ![c].applied = TRUE]
-    /\ UNCHANGED <<nops, hist, l, done, callow, cand, gal, tagsSeen, runTags>>
+    /\ UNCHANGED <<nops, hist, l, done, callow, cand, gal, hk, tagsSeen, runTags>>
 
 TWriteEnd ==
     /\ Is("we")
@@ -107,29 +110,29 @@ TWriteEnd ==
 TSubmit ==
     /\ Is("sub")
     /\ Submit(Ev.c, Ev.b)
-    /\ UNCHANGED <<wpend, callow, cand, gal, tagsSeen, runTags>>
+    /\ UNCHANGED <<wpend, callow, cand, gal, hk, tagsSeen, runTags>>
     /\ Consume
 
 TCommitStart ==
     /\ Is("cs")
     /\ callow' = Ev.b + 1
-    /\ UNCHANGED <<vars, wpend, cand, gal, tagsSeen, runTags>>
+    /\ UNCHANGED <<vars, wpend, cand, gal, hk, tagsSeen, runTags>>
     /\ Consume
 
-TCommit(e) == e < callow /\ Commit(e) /\ UNCHANGED <<l, done, wpend, callow, cand, gal, tagsSeen, runTags>>
-TNotify(e) == e < callow /\ Notify(e) /\ UNCHANGED <<l, done, wpend, callow, cand, gal, tagsSeen, runTags>>
+TCommit(e) == e < callow /\ Commit(e) /\ UNCHANGED <<l, done, wpend, callow, cand, gal, hk, tagsSeen, runTags>>
+TNotify(e) == e < callow /\ Notify(e) /\ UNCHANGED <<l, done, wpend, callow, cand, gal, hk, tagsSeen, runTags>>
 
 TCommitEnd ==
     /\ Is("ce")
     /\ Ev.b < NextEpoch /\ B(Ev.b).st = "not"
-    /\ UNCHANGED <<vars, wpend, callow, cand, gal, tagsSeen, runTags>>
+    /\ UNCHANGED <<vars, wpend, callow, cand, gal, hk, tagsSeen, runTags>>
     /\ Consume
 
 TGetStart ==
     /\ Is("gs")
     /\ GetStart(Ev.c, Ev.k)
     /\ gal' = [gal EXCEPT ![Ev.c] = cand[Ev.k]]
-    /\ UNCHANGED <<wpend, callow, cand, tagsSeen, runTags>>
+    /\ UNCHANGED <<wpend, callow, cand, hk, tagsSeen, runTags>>
     /\ Consume
 
 (* store reads of the running get of c are bounded by what its `ge` reports *)
@@ -137,12 +140,29 @@ RECURSIVE GeFrom(_, _)
 GeFrom(c, j) == IF j > Len(Rec) \/ Rec[j].e = "reset" THEN 0
                 ELSE IF Rec[j].e = "ge" /\ Rec[j].c = c THEN Rec[j].db ELSE GeFrom(c, j + 1)
 
+(* the store read precedes its `db` event, the fill follows the `dbx` event *)
 THidden(c) ==
-    /\ Probe(c) \/ Flight(c) \/ (pc[c].st = "readdb" /\ pc[c].ndb < GeFrom(c, l) /\ ReadDb(c)) \/ Fill(c)
-    /\ UNCHANGED <<l, done, wpend, callow, cand, gal, tagsSeen, runTags>>
+    \/ /\ Probe(c) \/ Flight(c) \/ (hk[c] = 0 /\ Fill(c))
+       /\ UNCHANGED <<l, done, wpend, callow, cand, gal, hk, tagsSeen, runTags>>
+    \/ /\ pc[c].st = "readdb" /\ hk[c] = 0 /\ pc[c].ndb < GeFrom(c, l)
+       /\ ReadDb(c)
+       /\ hk' = [hk EXCEPT ![c] = 1]
+       /\ UNCHANGED <<l, done, wpend, callow, cand, gal, tagsSeen, runTags>>
+
+TDb ==
+    /\ Is("db") /\ hk[Ev.c] = 1
+    /\ hk' = [hk EXCEPT ![Ev.c] = 2]
+    /\ UNCHANGED <<vars, wpend, callow, cand, gal, tagsSeen, runTags>>
+    /\ Consume
+
+TDbx ==
+    /\ Is("dbx") /\ hk[Ev.c] = 2
+    /\ hk' = [hk EXCEPT ![Ev.c] = 0]
+    /\ UNCHANGED <<vars, wpend, callow, cand, gal, tagsSeen, runTags>>
+    /\ Consume
 
 (* only the order of an eviction relative to a probe or a fill matters *)
-TEvict(k) == (\E c \in Clients : pc[c].k = k /\ pc[c].st \in {"probe", "fill"}) /\ Evict(k) /\ UNCHANGED <<l, done, wpend, callow, cand, gal, tagsSeen, runTags>>
+TEvict(k) == (\E c \in Clients : pc[c].k = k /\ pc[c].st \in {"probe", "fill"}) /\ Evict(k) /\ UNCHANGED <<l, done, wpend, callow, cand, gal, hk, tagsSeen, runTags>>
 
 (* the observed result must be the model's; a wrong one must carry the tag *)
 TGetEnd ==
@@ -156,19 +176,19 @@ TGetEnd ==
         /\ tagsSeen' = IF wrong THEN tagsSeen \cup {pc[c].tag} ELSE tagsSeen
         /\ pc' = [pc EXCEPT ![c] = Idle]
         /\ allowed' = [allowed EXCEPT ![c] = {}]
-    /\ UNCHANGED <<cache, db, batch, flight, ref, nops, hist, wpend, callow, cand, gal, runTags>>
+    /\ UNCHANGED <<cache, db, batch, flight, ref, nops, hist, wpend, callow, cand, gal, hk, runTags>>
     /\ Consume
 
 TSkip ==
     /\ l <= Len(Rec) /\ Ev.e \in {"flood", "panic", "dead"}
-    /\ UNCHANGED <<vars, wpend, callow, cand, gal, tagsSeen, runTags>>
+    /\ UNCHANGED <<vars, wpend, callow, cand, gal, hk, tagsSeen, runTags>>
     /\ Consume
 
 TFinish ==
     /\ l = Len(Rec) + 1 /\ ~done
     /\ JsonSerialize(IOEnv.OUT, [accepted |-> TRUE, runs |-> runTags])
     /\ done' = TRUE
-    /\ UNCHANGED <<vars, l, wpend, callow, cand, gal, tagsSeen, runTags>>
+    /\ UNCHANGED <<vars, l, wpend, callow, cand, gal, hk, tagsSeen, runTags>>
 
 (* (depth-first search explores the LAST disjunct first: events before      *)
 (* hidden steps before evictions)                                          *)
@@ -177,7 +197,7 @@ TNext ==
     \/ \E e \in 0..(NextEpoch - 1) : TCommit(e) \/ TNotify(e)
     \/ \E c \in Clients : TApply(c) \/ THidden(c)
     \/ TRun \/ TNew \/ TWriteStart \/ TWriteEnd \/ TSubmit \/ TCommitStart \/ TCommitEnd
-    \/ TGetStart \/ TGetEnd \/ TSkip \/ TReset \/ TFinish
+    \/ TGetStart \/ TGetEnd \/ TDb \/ TDbx \/ TSkip \/ TReset \/ TFinish
 
 TraceSpec == TInit /\ [][TNext]_tvars
 
